@@ -138,3 +138,38 @@ func H_c01_dispatch_lazy() {
 	verif_no_locks_held("TaskDispatch returns with no agent mutex held")
 	verif_witness()
 }
+
+// H_c01_pivot_nested: pivot callbacks that carry an inner package: SMB connect with an inner
+// registration header naming any agent id followed by 0..3 bytes (so the registration is
+// truncated), and SMB command relaying an inner callback of 0..8 arbitrary bytes for the
+// pivot child B, an unknown agent, or with a non-Demon magic value.
+func H_c01_pivot_nested() {
+	ts, A, _, _ := verifStateS()
+	var body []byte
+	id := nondet_u32("inner-id")
+	magic := uint32(DEMON_MAGIC_VALUE)
+	if nondet_bool("bad-magic") {
+		magic = nondet_u32("magic")
+	}
+	inner := verifPutBE32(nil, nondet_u32("inner-size"))
+	inner = verifPutBE32(inner, magic)
+	inner = verifPutBE32(inner, id)
+	switch nondet_choice("kind", 2) {
+	case 0: // connect
+		inner = verifPutBE32(inner, DEMON_INIT)
+		inner = verifPutBE32(inner, 0)
+		inner = append(inner, nondet_bytes("reg", nondet_choice("reglen", 4))...)
+		body = verifPutBE32(nil, DEMON_PIVOT_SMB_CONNECT)
+		body = verifPutBE32(body, nondet_u32("success"))
+		body = verifPutBytes(body, inner)
+	case 1: // relayed callback
+		inner = verifPutBE32(inner, nondet_u32("inner-cmd"))
+		inner = verifPutBE32(inner, nondet_u32("inner-rid"))
+		inner = verifPutBytes(inner, nondet_bytes("inner-body", nondet_choice("inner-len", 9)))
+		body = verifPutBE32(nil, DEMON_PIVOT_SMB_COMMAND)
+		body = verifPutBytes(body, inner)
+	}
+	A.TaskDispatch(nondet_u32("rid"), COMMAND_PIVOT, parser.NewParser(body), ts)
+	verif_no_locks_held("pivot callback returns with no agent mutex held")
+	verif_witness()
+}
